@@ -22,6 +22,7 @@ structure MuxOK (w : MW) (x : Nat) (xe : SigE) (gc gs : Int) : Prop where
   child : ∀ s, s ∈ xe.mx.signals ↔ ∃ e, w.sigs.get s = some e ∧ e.parentMux = some x
   namesNodup : KeysNodup xe.mx.signalNames
   names : ∀ n i, (n, i) ∈ xe.mx.signalNames ↔ i ∈ xe.mx.signals ∧ nameOf w i = n
+  sigsNodup : xe.mx.signals.Nodup
 
 structure MsgOK (w : MW) (m : Nat) (msg : MsgE) : Prop where
   cap : msg.cap = msg.sizeByte * 8 ∧ 0 ≤ msg.sizeByte
@@ -45,9 +46,9 @@ theorem InvCore.muxOK {w : MW} (h : InvCore w) {x : Nat} {xe : SigE} {gc gs : In
     (hx : w.sigs.get x = some xe) (hk : xe.kind = .mux gc gs) : MuxOK w x xe gc gs := by
   obtain ⟨a1, a2, a3, a4⟩ := h.groupsWF x xe gc gs hx hk
   obtain ⟨b1, b2⟩ := h.listedExactly x xe gc gs hx hk
-  obtain ⟨c1, c2, c3, c4, c5⟩ := h.childrenExact x xe gc gs hx hk
+  obtain ⟨c1, c2, c3, c4, c5, c6⟩ := h.childrenExact x xe gc gs hx hk
   exact ⟨⟨a1, a2, a3⟩, fun g hg => (a4 g hg).1, fun g hg => (a4 g hg).2,
-    h.fixedEverywhere x xe gc gs hx hk, b1, b2, c1, c2, c3, c4, c5⟩
+    h.fixedEverywhere x xe gc gs hx hk, b1, b2, c1, c2, c3, c4, c5, c6⟩
 
 theorem InvCore.msgOK {w : MW} (h : InvCore w) {m : Nat} {msg : MsgE}
     (hm : w.msgs.get m = some msg) : MsgOK w m msg := by
@@ -73,7 +74,7 @@ theorem InvCore.of_parts {w : MW}
   listedExactly := fun x xe gc gs hx hk => ⟨(hmux x xe gc gs hx hk).listed, (hmux x xe gc gs hx hk).neither⟩
   childrenExact := fun x xe gc gs hx hk =>
     let h := hmux x xe gc gs hx hk
-    ⟨h.split, h.disj, h.child, h.namesNodup, h.names⟩
+    ⟨h.split, h.disj, h.child, h.namesNodup, h.names, h.sigsNodup⟩
   parentIsMux := fun s e x hs hp => (hlink s e hs).parent x hp
   parentMsgExists := fun s e m hs hm => (hlink s e hs).msg m hm
   msgLayoutWF := fun m msg hm =>
@@ -141,7 +142,7 @@ theorem MuxOK.frame_geo {w w' : MW} {x : Nat} {xe xe' : SigE} {gc gs : Int} (h :
     (hnew : ∀ s e', w'.sigs.get s = some e' → e'.parentMux = some x → s ∈ xe.mx.signals)
     (hwf : ∀ g ∈ xe.mx.groups, WF gs (slotsOf w' g)) :
     MuxOK w' x xe' gc gs := by
-  refine ⟨?_, ?_, ?_, ?_, ?_, ?_, ?_, ?_, ?_, ?_, ?_⟩ <;> (try rw [hmx])
+  refine ⟨?_, ?_, ?_, ?_, ?_, ?_, ?_, ?_, ?_, ?_, ?_, by rw [hmx]; exact h.sigsNodup⟩ <;> (try rw [hmx])
   · exact h.shape
   · exact hwf
   · exact h.nodup
@@ -253,7 +254,7 @@ theorem MuxOK.frame_gen {w w' : MW} {x : Nat} {xe xe' : SigE} {gc gs : Int} (h :
     (hnn : KeysNodup xe'.mx.signalNames)
     (hnames : ∀ n i, (n, i) ∈ xe'.mx.signalNames ↔ i ∈ xe.mx.signals ∧ nameOf w' i = n) :
     MuxOK w' x xe' gc gs := by
-  refine ⟨?_, ?_, ?_, ?_, ?_, ?_, ?_, ?_, ?_, hnn, ?_⟩ <;> (try rw [hg]) <;> (try rw [hf]) <;>
+  refine ⟨?_, ?_, ?_, ?_, ?_, ?_, ?_, ?_, ?_, hnn, ?_, by rw [hsg]; exact h.sigsNodup⟩ <;> (try rw [hg]) <;> (try rw [hf]) <;>
     (try rw [hi]) <;> (try rw [hsg])
   · exact h.shape
   · exact hwf
